@@ -223,7 +223,15 @@ def h_field_diff(sx, cfg):
                     exact[full(k) + (c,)] = 0.0
                     klass[full(k) + (c,)] = "invalid-zero"
     vdims = [f"c{c}" for c in range(nv)] if (nv > 1 and cfg.get("labels")) else None
-    f = df.Field(mesh, nvdim=nv, value=symarray(data) if sx.sym else data.astype(float), valid=pat, vdims=vdims, unit="A/m")
+    if cfg.get("late_mask"):
+        # history: the field starts fully valid, is differentiated once, then cells are masked in place
+        f = df.Field(mesh, nvdim=nv, value=symarray(data) if sx.sym else data.astype(float), valid=True, vdims=vdims, unit="A/m")
+        f.diff(dims[ax], order=order, restrict2valid=restrict)
+        for idx in np.ndindex(*n):
+            if not pat[idx]:
+                f.valid[idx] = False
+    else:
+        f = df.Field(mesh, nvdim=nv, value=symarray(data) if sx.sym else data.astype(float), valid=pat, vdims=vdims, unit="A/m")
     g = f.diff(dims[ax], order=order, restrict2valid=restrict)
     sx.check("result-mesh", g.mesh == f.mesh and tuple(g.mesh.n) == n and g.mesh.bc == mesh.bc)
     sx.check("result-meta", g.nvdim == nv and g.vdims == f.vdims and g.unit == "A/m" and g.vdim_mapping == f.vdim_mapping)
@@ -316,6 +324,10 @@ def tasks(tier):
     for n, ax, bc, dims in open_bc:
         for order in (1, 2):
             t.append(dict(harness="h_field_diff", cfg=dict(n=list(n), axis=ax, order=order, nvdim=1, periodic=False, restrict=bool(order % 2), bc=bc, dims=dims), limits=lim))
+    for n, ax in ([((4,), 0), ((2, 3), 1)] if tier == "quick" else [((4,), 0), ((5,), 0), ((2, 3), 1), ((3, 1, 2), 0)]):
+        for order in (1, 2):
+            for periodic in (False, True):
+                t.append(dict(harness="h_field_diff", cfg=dict(n=list(n), axis=ax, order=order, nvdim=1, periodic=periodic, restrict=True, late_mask=True, dims="default"), limits=lim))
     for cfg in (dict(n=5, cell=2.0, values=[0, 1, 4, 9, 16]), dict(n=4, cell=0.5, values=[3, -2, 7, 5]), dict(n=6, cell=3.0, values=[1, 2, 4, 7, 11, 16], valid=[True, True, True, False, True, True])):
         t.append(dict(harness="h_int_dtype", cfg=cfg))
     t.append(dict(harness="h_refusals", cfg={}))
